@@ -25,7 +25,7 @@ def gen_pairs(ctx, n, keys=None, multiline=True, bytes_=True, flat_share=0.25, e
             t1 = gf.container(1)
             t2 = gf.edits(t1, ctx.rng.randint(1, 4))
             if ctx.rng.random() < 0.3:
-                t1 = {'k': t1, 'z': [t1, 0]}; t2 = {'k': t2, 'z': [t2, 0]}
+                t1 = {'k': t1, 'z': [copy.deepcopy(t1), 0]}; t2 = {'k': t2, 'z': [copy.deepcopy(t2), 0]}     # tree-shaped: no object at two positions
         else:
             t1 = g.container()
             t2 = copy.deepcopy(t1) if ctx.rng.random() < equal_share else g.edits(t1, ctx.rng.randint(1, 3))
